@@ -148,6 +148,9 @@ func (s *Scanner) Scan() bool {
 			s.token = token.LINE_TERMINATOR
 		case '#':
 			for !s.isDone() && s.nextRune != '\r' && s.nextRune != '\n' {
+				if !isSourceCharacter(s.nextRune) {
+					s.errorf("illegal character %#U in comment", s.nextRune)
+				}
 				s.consumeRune()
 			}
 			s.token = token.COMMENT
